@@ -1,4 +1,349 @@
-(* C14 lemmas (QN instance). *)
-From Coq Require Import ZArith QArith List Bool Arith Lia.
+(* C14 lemmas, part 1 (QN instance = exact rationals): one axis.
+   - the binary search of find_nearest_index terminates within fuel = len and returns a lower bound,
+   - the cell index lemma (grid[i] <= x <= grid[i+1], i+1 < len, upper boundary included),
+   - the fraction lies in [0,1], a blend lies between its end points,
+   - on a grid value the blend is the table value, any two cells containing x give the same blend
+     (border agreement), an affine function is reproduced exactly. *)
+From Coq Require Import ZArith QArith Qminmax List Bool Arith Lia Lqa String.
 From RC Require Import Base.Num Base.Res Model.Interp.
 Import ListNotations.
+Import Interp.
+Open Scope Q_scope.
+
+Module InterpP.
+
+(* ---------- notation for the QN instance ---------- *)
+Definition nq (g : list Q) (i : nat) : Q := nth i g 0.
+Definition lastq (g : list Q) : Q := nq g (List.length g - 1).
+Definition incr (g : list Q) : Prop := increasing (N:=QN) g = true.
+
+(* the polynomial of one cell along one axis *)
+Definition fr (g : list Q) (k : nat) (x : Q) : Q := (x - nq g k) / (nq g (S k) - nq g k).
+Definition ler (a b d : Q) : Q := a * (1 - d) + b * d.
+
+Lemma lerp_ler : forall a b d : Q, lerp (N:=QN) a b d = ler a b d.
+Proof. reflexivity. Qed.
+
+Global Instance ler_proper : Proper (Qeq ==> Qeq ==> Qeq ==> Qeq) ler.
+Proof. intros a a' Ha b b' Hb d d' Hd. unfold ler. rewrite Ha, Hb, Hd. reflexivity. Qed.
+
+(* ---------- booleans of QN ---------- *)
+Lemma leb_true : forall x y : Q, leb (n:=QN) x y = true <-> x <= y.
+Proof. intros x y. exact (Qle_bool_iff x y). Qed.
+Lemma leb_false : forall x y : Q, leb (n:=QN) x y = false <-> y < x.
+Proof.
+  intros x y. cbn [leb QN]. split.
+  - intros H. apply Qnot_le_lt. intros Hle. apply Qle_bool_iff in Hle. congruence.
+  - intros H. destruct (Qle_bool x y) eqn:E; [|reflexivity].
+    apply Qle_bool_iff in E. exfalso. exact (Qlt_not_le _ _ H E).
+Qed.
+Lemma ltb_true : forall x y : Q, ltb (n:=QN) x y = true <-> x < y.
+Proof.
+  intros x y. cbn [ltb QN]. unfold Qltb. rewrite negb_true_iff. exact (leb_false y x).
+Qed.
+Lemma ltb_false : forall x y : Q, ltb (n:=QN) x y = false <-> y <= x.
+Proof.
+  intros x y. cbn [ltb QN]. unfold Qltb. rewrite negb_false_iff. exact (leb_true y x).
+Qed.
+Lemma eqb_true : forall x y : Q, eqb (n:=QN) x y = true <-> x == y.
+Proof. intros x y. exact (Qeq_bool_iff x y). Qed.
+Lemma eqb_false : forall x y : Q, eqb (n:=QN) x y = false <-> ~ x == y.
+Proof.
+  intros x y. cbn [eqb QN]. split.
+  - intros H He. apply Qeq_bool_iff in He. congruence.
+  - intros H. destruct (Qeq_bool x y) eqn:E; [|reflexivity]. apply Qeq_bool_iff in E. contradiction.
+Qed.
+
+(* ---------- lists ---------- *)
+Lemma idx_ok : forall (l : list Q) i, (i < List.length l)%nat -> idx l i = Ok (nq l i).
+Proof.
+  intros l i H. unfold idx, nq. change (T QN) with Q. rewrite (nth_error_nth' l 0 H). reflexivity.
+Qed.
+Lemma idx_ok_gen : forall {A} (l : list A) i d, (i < List.length l)%nat -> idx l i = Ok (nth i l d).
+Proof.
+  intros A l i d H. unfold idx. rewrite (nth_error_nth' l d H). reflexivity.
+Qed.
+
+Lemma last_opt_nth : forall (g : list Q), g <> [] -> last_opt g = Some (lastq g).
+Proof.
+  unfold lastq, nq. induction g as [|a r IH]; intros H; [congruence|].
+  destruct r as [|b r']; [reflexivity|].
+  change (last_opt (a :: b :: r')) with (last_opt (b :: r')).
+  rewrite IH by congruence. cbn [List.length]. f_equal.
+  replace (S (S (List.length r')) - 1)%nat with (S (S (List.length r') - 1)) by lia.
+  reflexivity.
+Qed.
+
+Lemma inc_cons : forall a b (r : list Q),
+  increasing (N:=QN) (a :: b :: r) = ltb (n:=QN) a b && increasing (N:=QN) (b :: r).
+Proof. reflexivity. Qed.
+
+Lemma inc_step : forall g i, incr g -> (S i < List.length g)%nat -> nq g i < nq g (S i).
+Proof.
+  unfold incr, nq. induction g as [|a r IH]; intros i Hinc Hlen; [cbn in Hlen; lia|].
+  destruct r as [|b r']; [cbn in Hlen; lia|].
+  rewrite inc_cons in Hinc. apply andb_true_iff in Hinc. destruct Hinc as [Hab Hr].
+  destruct i as [|i'].
+  - cbn [nth]. apply ltb_true. exact Hab.
+  - change (nth (S i') (a :: b :: r') 0) with (nth i' (b :: r') 0).
+    change (nth (S (S i')) (a :: b :: r') 0) with (nth (S i') (b :: r') 0).
+    apply IH; [exact Hr|]. cbn [List.length] in *. lia.
+Qed.
+
+Lemma inc_lt : forall g i j, incr g -> (i < j)%nat -> (j < List.length g)%nat -> nq g i < nq g j.
+Proof.
+  intros g i j Hinc Hij Hj. induction j as [|j IH]; [lia|].
+  destruct (Nat.eq_dec i j) as [->|Hne].
+  - apply inc_step; assumption.
+  - apply Qlt_trans with (nq g j).
+    + apply IH; lia.
+    + apply inc_step; assumption.
+Qed.
+
+Lemma inc_le : forall g i j, incr g -> (i <= j)%nat -> (j < List.length g)%nat -> nq g i <= nq g j.
+Proof.
+  intros g i j Hinc Hij Hj. destruct (Nat.eq_dec i j) as [->|Hne]; [apply Qle_refl|].
+  apply Qlt_le_weak. apply inc_lt; [assumption|lia|assumption].
+Qed.
+
+(* strict monotonicity read backwards *)
+Lemma inc_lt_inv : forall g i j, incr g -> (i < List.length g)%nat -> (j < List.length g)%nat ->
+  nq g i < nq g j -> (i < j)%nat.
+Proof.
+  intros g i j Hinc Hi Hj Hlt. destruct (lt_dec i j) as [H|H]; [exact H|exfalso].
+  assert (Hle : nq g j <= nq g i) by (apply inc_le; [assumption|lia|assumption]).
+  exact (Qlt_not_le _ _ Hlt Hle).
+Qed.
+Lemma inc_le_inv : forall g i j, incr g -> (i < List.length g)%nat -> (j < List.length g)%nat ->
+  nq g i <= nq g j -> (i <= j)%nat.
+Proof.
+  intros g i j Hinc Hi Hj Hle. destruct (le_dec i j) as [H|H]; [exact H|exfalso].
+  assert (Hlt : nq g j < nq g i) by (apply inc_lt; [assumption|lia|assumption]).
+  exact (Qlt_not_le _ _ Hlt Hle).
+Qed.
+Lemma inc_inj : forall g i j, incr g -> (i < List.length g)%nat -> (j < List.length g)%nat ->
+  nq g i == nq g j -> i = j.
+Proof.
+  intros g i j Hinc Hi Hj He.
+  assert (i <= j)%nat by (apply (inc_le_inv g); try assumption; rewrite He; apply Qle_refl).
+  assert (j <= i)%nat by (apply (inc_le_inv g); try assumption; rewrite He; apply Qle_refl).
+  lia.
+Qed.
+
+(* ---------- the binary search ---------- *)
+(* invariant: everything strictly left of [low] is below the target, [high] is not; no sortedness is needed
+   for this part; fuel [high - low] suffices because the interval at least halves *)
+Lemma bs_loop_spec : forall fuel (g : list Q) (t : Q) low high,
+  (high - low <= fuel)%nat -> (low <= high)%nat -> (high < List.length g)%nat ->
+  (low = 0%nat \/ nq g (low - 1) < t) -> t <= nq g high ->
+  exists r, bs_loop (N:=QN) fuel g t low high = Ok r /\ (low <= r <= high)%nat /\
+            (r = 0%nat \/ nq g (r - 1) < t) /\ t <= nq g r.
+Proof.
+  induction fuel as [|f IH]; intros g t low high Hfuel Hlh Hlen Hlow Hhigh.
+  - assert (low = high) by lia. subst high. exists low.
+    cbn [bs_loop]. rewrite Nat.ltb_irrefl. repeat split; auto; lia.
+  - cbn [bs_loop]. change (T QN) with Q. destruct (low <? high)%nat eqn:E.
+    + apply Nat.ltb_lt in E.
+      assert (Hdiv : ((high - low) / 2 < high - low)%nat) by (apply Nat.div_lt; lia).
+      set (mid := (low + (high - low) / 2)%nat) in *.
+      assert (Hmid : (low <= mid < high)%nat) by (unfold mid; lia).
+      rewrite (idx_ok g mid) by lia. cbn [bind].
+      destruct (leb (n:=QN) t (nq g mid)) eqn:El.
+      * apply leb_true in El.
+        destruct (IH g t low mid) as [r [Hr [Hb [Hl Hh]]]]; try assumption; try lia.
+        exists r. repeat split; try assumption; lia.
+      * apply leb_false in El.
+        destruct (IH g t (S mid) high) as [r [Hr [Hb [Hl Hh]]]]; try assumption; try lia.
+        { right. replace (S mid - 1)%nat with mid by lia. exact El. }
+        exists r. repeat split; try assumption; lia.
+    + apply Nat.ltb_ge in E. assert (low = high) by lia. subst high. exists low.
+      repeat split; auto; lia.
+Qed.
+
+(* the loop as find_nearest_index starts it never runs out of fuel *)
+Lemma bs_loop_fuel : forall (g : list Q) (t : Q),
+  (1 <= List.length g)%nat -> t <= lastq g ->
+  exists r, bs_loop (N:=QN) (List.length g) g t 0 (List.length g - 1) = Ok r /\
+            (r <= List.length g - 1)%nat /\ (r = 0%nat \/ nq g (r - 1) < t) /\ t <= nq g r.
+Proof.
+  intros g t Hlen Hlast.
+  destruct (bs_loop_spec (List.length g) g t 0 (List.length g - 1)) as [r [Hr [Hb [Hl Hh]]]];
+    try lia; auto.
+  exists r. repeat split; try assumption; lia.
+Qed.
+
+(* ---------- the cell index lemma ---------- *)
+Lemma fni_spec : forall (g : list Q) (x : Q),
+  incr g -> (2 <= List.length g)%nat -> nq g 0 <= x -> x <= lastq g ->
+  exists i, find_nearest_index (N:=QN) g x = Ok i /\ (S i < List.length g)%nat /\
+            nq g i <= x /\ x <= nq g (S i) /\
+            ((x == lastq g /\ i = (List.length g - 2)%nat) \/ nq g i < x \/ (i = 0%nat /\ x == nq g 0)).
+Proof.
+  intros g x Hinc Hlen Hlo Hhi. unfold find_nearest_index. change (T QN) with Q.
+  rewrite last_opt_nth by (destruct g; [cbn in Hlen; lia|congruence]).
+  destruct (eqb (n:=QN) x (lastq g)) eqn:Eq.
+  - apply eqb_true in Eq.
+    destruct (List.length g <? 2)%nat eqn:E2; [apply Nat.ltb_lt in E2; lia|].
+    exists (List.length g - 2)%nat.
+    assert (Hs : S (List.length g - 2) = (List.length g - 1)%nat) by lia.
+    split; [reflexivity|]. split; [lia|]. rewrite Hs. fold (lastq g).
+    split; [|split].
+    + rewrite Eq. unfold lastq. apply inc_le; [assumption|lia|lia].
+    + rewrite Eq. apply Qle_refl.
+    + left. split; [exact Eq|reflexivity].
+  - apply eqb_false in Eq.
+    destruct (bs_loop_fuel g x) as [r [Hr [Hb [Hl Hh]]]]; [lia|assumption|].
+    rewrite Hr. cbn [bind].
+    destruct (0 <? r)%nat eqn:E0.
+    + apply Nat.ltb_lt in E0. rewrite (idx_ok g r) by lia. cbn [bind].
+      destruct (leb (n:=QN) x (nq g r)) eqn:El.
+      * destruct Hl as [Hl|Hl]; [lia|].
+        exists (r - 1)%nat. replace (S (r - 1)) with r by lia.
+        split; [reflexivity|]. split; [lia|]. split; [apply Qlt_le_weak; exact Hl|].
+        split; [exact Hh|]. right. left. exact Hl.
+      * apply leb_false in El. exfalso. exact (Qlt_not_le _ _ El Hh).
+    + apply Nat.ltb_ge in E0. assert (r = 0%nat) by lia. subst r.
+      exists 0%nat. split; [reflexivity|]. split; [lia|]. split; [exact Hlo|].
+      assert (H0 : x == nq g 0) by (apply Qle_antisym; assumption).
+      split.
+      * rewrite H0. apply Qlt_le_weak. apply inc_step; [assumption|lia].
+      * right. right. split; [reflexivity|exact H0].
+Qed.
+
+(* ---------- fraction and blend ---------- *)
+Lemma frac_ok : forall (g : list Q) i x, (S i < List.length g)%nat ->
+  frac (N:=QN) g i x = Ok (fr g i x).
+Proof.
+  intros g i x H. unfold frac. change (T QN) with Q. rewrite (idx_ok g i) by lia. cbn [bind].
+  rewrite (idx_ok g (S i)) by lia. reflexivity.
+Qed.
+
+Lemma fr_range : forall g i x, nq g i < nq g (S i) -> nq g i <= x -> x <= nq g (S i) ->
+  0 <= fr g i x /\ fr g i x <= 1.
+Proof.
+  intros g i x Hlt Hlo Hhi. unfold fr.
+  assert (Hd : 0 < nq g (S i) - nq g i) by lra.
+  split.
+  - apply Qle_shift_div_l; [exact Hd|]. lra.
+  - apply Qle_shift_div_r; [exact Hd|]. lra.
+Qed.
+
+Lemma fr_lo : forall g i x, nq g i < nq g (S i) -> x == nq g i -> fr g i x == 0.
+Proof. intros g i x Hlt He. unfold fr. rewrite He. field. lra. Qed.
+Lemma fr_hi : forall g i x, nq g i < nq g (S i) -> x == nq g (S i) -> fr g i x == 1.
+Proof. intros g i x Hlt He. unfold fr. rewrite He. field. lra. Qed.
+
+Lemma ler_0 : forall a b d, d == 0 -> ler a b d == a.
+Proof. intros a b d H. unfold ler. rewrite H. ring. Qed.
+Lemma ler_1 : forall a b d, d == 1 -> ler a b d == b.
+Proof. intros a b d H. unfold ler. rewrite H. ring. Qed.
+
+(* convexity of one blend *)
+Lemma ler_between : forall lo hi a b d, 0 <= d -> d <= 1 ->
+  lo <= a -> a <= hi -> lo <= b -> b <= hi -> lo <= ler a b d /\ ler a b d <= hi.
+Proof.
+  intros lo hi a b d Hd0 Hd1 Ha1 Ha2 Hb1 Hb2. unfold ler.
+  assert (H1 : 0 <= (a - lo) * (1 - d)) by (apply Qmult_le_0_compat; lra).
+  assert (H2 : 0 <= (b - lo) * d) by (apply Qmult_le_0_compat; lra).
+  assert (H3 : 0 <= (hi - a) * (1 - d)) by (apply Qmult_le_0_compat; lra).
+  assert (H4 : 0 <= (hi - b) * d) by (apply Qmult_le_0_compat; lra).
+  split; lra.
+Qed.
+
+(* Lipschitz in the fraction: the blend moves by at most |b - a| per unit of d *)
+Lemma ler_diff : forall a b d d', ler a b d - ler a b d' == (b - a) * (d - d').
+Proof. intros. unfold ler. ring. Qed.
+
+(* the full per-axis result: what the code computes for an in-range coordinate *)
+Record axis_cell (g : list Q) (x : Q) (i : nat) : Prop := {
+  ac_len : (S i < List.length g)%nat;
+  ac_lo : nq g i <= x;
+  ac_hi : x <= nq g (S i);
+  ac_lt : nq g i < nq g (S i);
+}.
+
+Lemma axis_spec : forall (g : list Q) (x : Q),
+  incr g -> (2 <= List.length g)%nat -> nq g 0 <= x -> x <= lastq g ->
+  exists i, find_nearest_index (N:=QN) g x = Ok i /\ frac (N:=QN) g i x = Ok (fr g i x) /\
+            axis_cell g x i.
+Proof.
+  intros g x Hinc Hlen Hlo Hhi.
+  destruct (fni_spec g x Hinc Hlen Hlo Hhi) as [i [Hi [Hl [H1 [H2 _]]]]].
+  exists i. split; [exact Hi|]. split; [apply frac_ok; exact Hl|].
+  constructor; try assumption. apply inc_step; assumption.
+Qed.
+
+Lemma axis_cell_range : forall g x i, axis_cell g x i -> 0 <= fr g i x /\ fr g i x <= 1.
+Proof. intros g x i [H1 H2 H3 H4]. apply fr_range; assumption. Qed.
+
+(* the blend along a cell that contains a grid value is the table value there *)
+Lemma axis_on_grid : forall g x i k (v : nat -> Q), incr g -> axis_cell g x i ->
+  (k < List.length g)%nat -> x == nq g k ->
+  ler (v i) (v (S i)) (fr g i x) == v k.
+Proof.
+  intros g x i k v Hinc [H1 H2 H3 H4] Hk He.
+  assert (Hik : (i <= k)%nat) by (apply (inc_le_inv g); try assumption; try lia; rewrite <- He; exact H2).
+  assert (Hki : (k <= S i)%nat) by (apply (inc_le_inv g); try assumption; rewrite <- He; exact H3).
+  destruct (Nat.eq_dec k i) as [->|Hne].
+  - apply ler_0. apply fr_lo; assumption.
+  - assert (k = S i) by lia. subst k. apply ler_1. apply fr_hi; assumption.
+Qed.
+
+(* border agreement along one axis: every cell whose closed interval contains x gives the same blend *)
+Lemma axis_any_cell : forall g x i k (v : nat -> Q), incr g -> axis_cell g x i -> axis_cell g x k ->
+  ler (v i) (v (S i)) (fr g i x) == ler (v k) (v (S k)) (fr g k x).
+Proof.
+  intros g x i k v Hinc Hi Hk.
+  destruct (lt_eq_lt_dec i k) as [[Hlt|Heq]|Hgt].
+  - destruct Hi as [A1 A2 A3 A4]. pose proof Hk as Hk'. destruct Hk as [B1 B2 B3 B4].
+    assert (Hle : nq g (S i) <= nq g k) by (apply inc_le; [assumption|lia|lia]).
+    assert (Hx : x == nq g (S i)) by (apply Qle_antisym; [assumption|lra]).
+    rewrite (ler_1 _ _ (fr g i x)) by (apply fr_hi; assumption).
+    symmetry. apply (axis_on_grid g x k (S i) v); try assumption.
+  - subst k. reflexivity.
+  - pose proof Hi as Hi'. destruct Hi as [A1 A2 A3 A4]. destruct Hk as [B1 B2 B3 B4].
+    assert (Hle : nq g (S k) <= nq g i) by (apply inc_le; [assumption|lia|lia]).
+    assert (Hx : x == nq g (S k)) by (apply Qle_antisym; [assumption|lra]).
+    rewrite (ler_1 _ _ (fr g k x)) by (apply fr_hi; assumption).
+    apply (axis_on_grid g x i (S k) v); try assumption. lia.
+Qed.
+
+(* an affine function of the coordinate is reproduced exactly *)
+Lemma axis_affine : forall g x i (A B : Q), nq g i < nq g (S i) ->
+  ler (A + B * nq g i) (A + B * nq g (S i)) (fr g i x) == A + B * x.
+Proof. intros g x i A B Hlt. unfold ler, fr. field. lra. Qed.
+
+(* in-range test of validate_inputs *)
+Lemma in_axis_spec : forall (g : list Q) (x : Q), (1 <= List.length g)%nat ->
+  in_axis (N:=QN) g x = Ok (leb (n:=QN) (nq g 0) x && leb (n:=QN) x (lastq g)).
+Proof.
+  intros g x Hlen. unfold in_axis. change (T QN) with Q. rewrite (idx_ok g 0) by lia. cbn [bind].
+  rewrite last_opt_nth by (destruct g; [cbn in Hlen; lia|congruence]). reflexivity.
+Qed.
+
+Lemma in_range_true : forall (g : list Q) (x : Q),
+  leb (n:=QN) (nq g 0) x && leb (n:=QN) x (lastq g) = true <-> nq g 0 <= x /\ x <= lastq g.
+Proof. intros g x. rewrite andb_true_iff, !leb_true. tauto. Qed.
+
+(* position: the first grid value equal to the coordinate *)
+Lemma position_some : forall (g : list Q) (x : Q) k, position (N:=QN) g x = Some k ->
+  (k < List.length g)%nat /\ x == nq g k.
+Proof.
+  unfold nq. induction g as [|a r IH]; intros x k H; [discriminate|].
+  cbn [position] in H. destruct (eqb (n:=QN) a x) eqn:E.
+  - injection H as <-. apply eqb_true in E. split; [cbn; lia|]. cbn [nth]. symmetry. exact E.
+  - destruct (position (N:=QN) r x) as [k'|] eqn:E'; [|discriminate].
+    injection H as <-. destruct (IH x k' E') as [H1 H2]. split; [cbn; lia|]. exact H2.
+Qed.
+Lemma position_none : forall (g : list Q) (x : Q) k, position (N:=QN) g x = None ->
+  (k < List.length g)%nat -> ~ x == nq g k.
+Proof.
+  unfold nq. induction g as [|a r IH]; intros x k H Hk; [cbn in Hk; lia|].
+  cbn [position] in H. destruct (eqb (n:=QN) a x) eqn:E; [discriminate|].
+  destruct (position (N:=QN) r x) as [k'|] eqn:E'; [discriminate|].
+  apply eqb_false in E. destruct k as [|k].
+  - cbn [nth]. intros He. apply E. symmetry. exact He.
+  - cbn [nth]. apply IH; [reflexivity|cbn in Hk; lia].
+Qed.
+
+End InterpP.
